@@ -8,7 +8,25 @@ the raw array (column by column, chain by chain)."""
 import math
 import numpy as np
 from fractions import Fraction
-from harness.core import import_cuqi, quiet, q, qv, qm, pv, pm, close
+from harness.core import import_cuqi, quiet, q, qv, qm, pv, pm
+from harness.core import close as _core_close
+
+MARGIN = {}    # tolerance -> [number of float comparisons that passed, largest deviation seen as a fraction of that tolerance]
+
+
+def close(a, b, tol=1e-9):
+    """harness.core.close, recording for every tolerance class how much of the tolerance the passing comparisons used
+    (evidence `tolerance_margins`; a class that uses more than 10 % of its tolerance on some seed would be flaky)"""
+    ok = _core_close(a, b, tol)
+    if ok:
+        x, y = float(a), float(b)
+        if x == x and y == y and abs(x) != float("inf") and abs(y) != float("inf"):
+            m = MARGIN.setdefault(tol, [0, 0.0])
+            m[0] += 1
+            fr = abs(x - y) / (tol * (1.0 + max(abs(x), abs(y))))
+            if fr > m[1]:
+                m[1] = fr
+    return ok
 
 LEVELS = [0, 0.5, 0.99, 1, 5, 50, 68, 95, 99.9, 100]
 LEVELS2 = [0, 1e-9, 0.001, 0.05, 0.25, 0.5, 0.95, 0.99, 1, 1.0, 1.5, 2.5, 5, 50, 68, 90, 95, 99, 99.9, 99.999, 100 - 1e-9, 100]
@@ -676,9 +694,11 @@ def gen_bt(rng, N, malformed=False):
 
 
 def run(ctx):
+    MARGIN.clear()
     _run_core(ctx)
     from harness.props import c19_ext
     c19_ext.run_ext(ctx, import_cuqi())      # session 3: access / glue code around the core (Model/C19_access.lean)
+    ctx.extra_cov["tolerance_margins"] = {f"{t:g}": {"comparisons_passed": n, "max_fraction_of_tolerance_used": round(fr, 6)} for t, (n, fr) in sorted(MARGIN.items())}
 
 
 def _run_core(ctx):
